@@ -9,5 +9,5 @@ CONSTANTS
   Ops = {"read", "length", "argv", "arrmsg", "memchr", "memfcn", "memstr", "memtok", "append", "qget"}
 VIEW View
 INVARIANTS TypeOK Refines
-PROPERTIES DesignAgrees Normalised
+PROPERTIES DesignAgrees Normalised OnceAgrees
 CHECK_DEADLOCK FALSE
